@@ -669,7 +669,7 @@ func TestC11(t *testing.T) {
 		}
 	})
 
-	run.ForEachT(t, "multi", vt.N(4000, 100000), func(t *testing.T, c vt.CaseID, rng *rand.Rand, s *vt.Slot) {
+	run.ForEachT(t, "multi", vt.N(8000, 150000), func(t *testing.T, c vt.CaseID, rng *rand.Rand, s *vt.Slot) {
 		s.Enter(c, "crash/multi")
 		defer s.Leave()
 		synctest.Test(t, func(t *testing.T) { runMulti(t, run, c, rng) })
@@ -701,6 +701,9 @@ func runMulti(t *testing.T, run *vt.Run, c vt.CaseID, rng *rand.Rand) {
 		q.TerminalPred = false
 		q.Sorter = ""
 		n := 1 + rng.IntN(3)
+		if rng.IntN(2) == 0 {
+			n = 1 + rng.IntN(6) // larger sets: zones with several instances, results from zones that end up unused
+		}
 		q.Instances = q.Instances[:min(n, len(q.Instances))]
 		if !q.zoneMode() && q.MaxErrors > len(q.Instances) {
 			q.MaxErrors = len(q.Instances)
@@ -758,6 +761,20 @@ func runMulti(t *testing.T, run *vt.Run, c vt.CaseID, rng *rand.Rand) {
 		}
 		return "res-" + d.Id, nil
 	}
+	cleanupLatency := map[string]time.Duration{}
+	allSlow := rng.IntN(2) == 0
+	if rng.IntN(2) == 0 {
+		for id := range outcome {
+			_ = id
+		}
+		for _, q := range qs {
+			for _, in := range q.Instances {
+				if allSlow || rng.IntN(3) == 0 {
+					cleanupLatency["res-"+in.ID] = time.Duration(1+rng.IntN(100)) * time.Millisecond
+				}
+			}
+		}
+	}
 	ctx, cancelAll := context.WithCancelCause(context.Background())
 	defer cancelAll(nil)
 	type ret struct {
@@ -767,6 +784,10 @@ func runMulti(t *testing.T, run *vt.Run, c vt.CaseID, rng *rand.Rand) {
 	retCh := make(chan ret, 1)
 	go func() {
 		res, err := ring.DoMultiUntilQuorumWithoutSuccessfulContextCancellation(ctx, sets, ring.DoUntilQuorumConfig{MinimizeRequests: minimize}, f, func(s string) {
+			// releasing a result may take time (closing a stream): other events happen meanwhile
+			if d := cleanupLatency[s]; d > 0 {
+				time.Sleep(d)
+			}
 			mu.Lock()
 			cleaned[s]++
 			mu.Unlock()
@@ -809,6 +830,11 @@ func runMulti(t *testing.T, run *vt.Run, c vt.CaseID, rng *rand.Rand) {
 			cancelled = true
 			synctest.Wait()
 			poll()
+			if returned == nil && len(cleanupLatency) > 0 {
+				time.Sleep(500 * time.Millisecond) // a slow cleanup in progress delays the return legitimately
+				synctest.Wait()
+				poll()
+			}
 			trace = append(trace, "cancel")
 			if returned == nil {
 				viol("blocked-after-context-end", "not returned after the caller's context ended", map[string]any{"trace": trace})
@@ -838,6 +864,12 @@ func runMulti(t *testing.T, run *vt.Run, c vt.CaseID, rng *rand.Rand) {
 		poll()
 		if !wasReturned && !cancelled {
 			v := specVerdict()
+			if v != undecided && returned == nil && len(cleanupLatency) > 0 {
+				// a set may still be busy releasing results it does not need: let slow cleanups finish
+				time.Sleep(500 * time.Millisecond)
+				synctest.Wait()
+				poll()
+			}
 			switch {
 			case v == undecided && returned != nil:
 				viol("returned-before-every-set-decided", fmt.Sprintf("returned (%v,%v) while some set is undecided and none has failed", returned.res, returned.err), map[string]any{"trace": trace})
@@ -848,6 +880,9 @@ func runMulti(t *testing.T, run *vt.Run, c vt.CaseID, rng *rand.Rand) {
 			}
 		}
 	}
+	// slow cleanups finish
+	time.Sleep(2 * time.Second)
+	synctest.Wait()
 	poll()
 	if returned == nil {
 		viol("never-returned", "not returned after all started calls completed", map[string]any{"trace": trace})
@@ -855,6 +890,7 @@ func runMulti(t *testing.T, run *vt.Run, c vt.CaseID, rng *rand.Rand) {
 		synctest.Wait()
 		poll()
 	}
+	time.Sleep(2 * time.Second)
 	synctest.Wait()
 	mu.Lock()
 	used := map[string]bool{}
